@@ -265,6 +265,30 @@ def run(prog):
                                     perrs.append("the branching order is iterated through `%s`: an entry can be skipped without its "
                                                  "upper bound having been compared with the lower bound" % t_[1].name)
                                 t_ = strip(t_[2][0])
+            # BB5: the loop over the order ends only when the order is exhausted (a `break` on any other test skips an entry
+            # whose bound was never compared with the incumbent)
+            it_loc = None
+            for x in mir.subterms(it_model):
+                if mir.is_call(x, "next") and x[2] and strip(x[2][0])[0] == "mutref":
+                    it_loc = strip(x[2][0])[1]
+            cfg = fn.cfg
+            for h, body in cfg.loop_headers.items():
+                if it_loc is None or (h, it_loc) not in te.mu_init or cs.bb not in body:
+                    continue
+                for b in sorted(body):
+                    for s_ in cfg.succ[b]:
+                        if s_ in body or fn.blocks[s_]["term"]["k"] == "unreachable":
+                            continue
+                        sw = te.switch_term.get(b)
+                        if sw and sw[0][0] == "discr" and mir.is_call(strip(sw[0][1]), "next") and strip(strip(sw[0][1])[2][0]) == ("mutref", it_loc):
+                            continue          # the iterator's None
+                        if fn.blocks[b]["term"]["k"] in ("call", "assert", "drop") and s_ not in body and \
+                                fn.blocks[b]["term"].get("target") != s_:
+                            continue          # unwind edge
+                        cond = show(sw[0])[:60] if sw else "?"
+                        perrs.append("the loop over the branching order is left on `%s` (line %s) before every entry has been "
+                                     "compared with the incumbent: a branch whose upper bound exceeds the best value found is never "
+                                     "explored" % (cond, fn.blocks[b]["term"].get("line")))
             # BB5: guard
             guards = []
             for c, val, _, _ in te.facts_at(cs.bb):
